@@ -395,6 +395,11 @@ RunOf(c) == [k \in DOMAIN runs[cur.r] |-> c[k]]
 EngOf(c, g) == [g EXCEPT !.db = c.db, !.nf = c.nf, !.ncalls = c.ncalls]
 
 AnswerOf(c) == CanonSeq([i \in 1..c.qnv |-> Resolve(V(i - 1), c.s)])
+WantPy == "py" \in DOMAIN Scn
+PyOf(ans) == IF WantPy THEN [i \in DOMAIN ans |-> ToPy(ans[i])] ELSE <<>>
+SolveObs(answers, end, nlog) ==
+  [k |-> "solve", answers |-> answers, end |-> end, nlog |-> nlog,
+   pys |-> IF WantPy THEN [i \in DOMAIN answers |-> PyOf(answers[i])] ELSE <<>>]
 
 \* one micro step of the run being advanced, or the delivery of its observation
 Micro ==
@@ -426,13 +431,13 @@ Micro ==
              IF cur.mode = "next"
              THEN LET rs == [runs EXCEPT ![r] = RunOf(c1)] IN
                   /\ runs' = rs
-                  /\ hist' = Rec(cur.op, [k |-> "answer", ans |-> ans, nlog |-> c.nlog], es, rs)
+                  /\ hist' = Rec(cur.op, [k |-> "answer", ans |-> ans, py |-> PyOf(ans), nlog |-> c.nlog], es, rs)
                   /\ cur' = NoCur /\ pc' = pc + 1 /\ UNCHANGED halted
              ELSE \* solve: collect; after the k-th answer the query is closed
                   IF cur.left = 1
                   THEN LET rs == [runs EXCEPT ![r] = RunOf(Stop(c1, "closed"))] IN
                        /\ runs' = rs
-                       /\ hist' = Rec(cur.op, [k |-> "solve", answers |-> Append(cur.acc, ans), end |-> "closed", nlog |-> c.nlog], es, rs)
+                       /\ hist' = Rec(cur.op, SolveObs(Append(cur.acc, ans), "closed", c.nlog), es, rs)
                        /\ cur' = NoCur /\ pc' = pc + 1 /\ UNCHANGED halted
                   ELSE /\ runs' = [runs EXCEPT ![r] = RunOf([c1 EXCEPT !.status = "back"])]
                        /\ cur' = [cur EXCEPT !.acc = Append(@, ans), !.left = IF @ = 0 THEN 0 ELSE @ - 1]
@@ -441,7 +446,7 @@ Micro ==
              LET rs == [runs EXCEPT ![r] = RunOf(c)]
                  obs == IF cur.mode = "next"
                         THEN [k |-> IF c.status = "done" THEN "stop" ELSE c.status, nlog |-> c.nlog]
-                        ELSE [k |-> "solve", answers |-> cur.acc, end |-> IF c.status = "done" THEN "stop" ELSE c.status, nlog |-> c.nlog] IN
+                        ELSE SolveObs(cur.acc, IF c.status = "done" THEN "stop" ELSE c.status, c.nlog) IN
              /\ runs' = rs
              /\ hist' = Rec(cur.op, obs, es, rs)
              /\ cur' = NoCur /\ pc' = pc + 1
